@@ -79,11 +79,23 @@ KIND_TEMPLATES = {
     'ia5': '%s ::= IA5String',
     'oid': '%s ::= OBJECT IDENTIFIER',
     'alias': 'Base-t ::= INTEGER\n%s ::= Base-t (0..3)',
+    # the same kinds with tags, extension markers and a tag on the type itself: the name handling must not depend on them
+    'choice-tagged': '%s ::= CHOICE { aa [0] NULL, bb [1] BOOLEAN }',
+    'choice-ext': '%s ::= CHOICE { aa NULL, ..., bb BOOLEAN }',
+    'sequence-tagged': '%s ::= SEQUENCE { aa [0] NULL, bb [1] BOOLEAN OPTIONAL }',
+    'sequence-ext': '%s ::= SEQUENCE { aa NULL, ..., bb BOOLEAN }',
+    'set-tagged': '%s ::= SET { aa [1] NULL, bb [0] BOOLEAN }',
+    'enumerated-ext': '%s ::= ENUMERATED { aa, ..., bb }',
+    'typetag-sequence': '%s ::= [APPLICATION 3] SEQUENCE { aa NULL }',
+    'typetag-choice': '%s ::= [APPLICATION 4] CHOICE { aa NULL, bb BOOLEAN }',
+    'typetag-integer': '%s ::= [PRIVATE 5] INTEGER',
+    'typetag-enumerated': '%s ::= [2] EXPLICIT ENUMERATED { aa, bb }',
 }
+TAG_ENVS = ['AUTOMATIC TAGS', 'IMPLICIT TAGS', 'EXPLICIT TAGS', 'AUTOMATIC TAGS EXTENSIBILITY IMPLIED']
 
 
-def kind_module(kind, t):
-    return 'Mk DEFINITIONS AUTOMATIC TAGS ::= BEGIN\n%s\nEND\n' % (KIND_TEMPLATES[kind] % t)
+def kind_module(kind, t, env='AUTOMATIC TAGS'):
+    return 'Mk DEFINITIONS %s ::= BEGIN\n%s\nEND\n' % (env, KIND_TEMPLATES[kind] % t)
 
 
 def value_module(n):
@@ -245,7 +257,8 @@ def run(ck):
     for idx, s in enumerate(interesting[:(260 if ck.tier == 'quick' else 3000)]):
         t = s[0].upper() + s[1:]
         for kind in (kinds if idx < 30 else [kinds[idx % len(kinds)], kinds[(idx * 7 + 3) % len(kinds)]]):
-            cases.append({'op': 'compile', 'sources': [kind_module(kind, t)], '_kind': kind, '_t': t})
+            cases.append({'op': 'compile', 'sources': [kind_module(kind, t, TAG_ENVS[(idx + len(kind)) % len(TAG_ENVS)] if idx % 3 else 'AUTOMATIC TAGS')],
+                          '_kind': kind, '_t': t})
     for s in interesting[:(150 if ck.tier == 'quick' else 2000)]:
         n = s[0].lower() + s[1:]
         cases.append({'op': 'compile', 'sources': [value_module(n)], '_value': n})
